@@ -27,6 +27,7 @@ def main():
     ap.add_argument("--suite", action="store_true")
     ap.add_argument("--only", nargs="*")
     ap.add_argument("--checks")
+    ap.add_argument("--map", help="JSON file: mutant id -> list of checks to run (overrides --checks for the ids it lists)")
     ap.add_argument("--tier", default="quick")
     ap.add_argument("--out", default=None)
     a = ap.parse_args()
@@ -55,7 +56,10 @@ def main():
         res["demo_mutant"] = rc
         res["demo_mutant_out"] = out.strip().split("\n")[0][:200]
         checks = [prop]
-        if a.checks:
+        per = json.load(open(a.map)).get(mid) if a.map else None
+        if per:
+            checks = [prop if x == "OWN" else x for x in per]
+        elif a.checks:
             checks = []
             for c in a.checks.split(","):
                 c = prop if c == "OWN" else c
